@@ -5,7 +5,7 @@ import sys, os, json
 sys.path.insert(0, '/verif/lib')
 
 OPS = {'fld_rel': 1, 'fld_sort': 2, 'fld_params': 3, 'big_rel': 4, 'big_sort': 5, 'sw_rel': 6, 'sw_params': 7,
-       'te_rel': 8, 'te_params': 9, 'gt_rel': 10, 'poly_rel': 12}
+       'te_rel': 8, 'te_params': 9, 'gt_rel': 10, 'gt_pair': 11, 'poly_rel': 12, 'gt_params': 13}
 
 PARAMS = json.load(open(os.path.join(os.path.dirname(os.path.abspath(__file__)), 'params.json')))
 FIELDS, SW, TE = PARAMS['fields'], PARAMS['sw'], PARAMS['te']
@@ -237,13 +237,20 @@ def nz_coords(rng, p, d):
             return v
 
 
-def gen_curve(rng, op, c, r, n, tiny=False):
+def gen_curve(rng, op, c, r, n, tiny=False, fixed=None):
     fld = c['params']
     p, d = fld[0], DEG[c['kind']]
     H = [[c['cfg'], c['kind'], c['N']], fld, c['a'], c['b'] if op == 'sw_rel' else c['d'], c['G']]
     for _ in range(n):
-        big = (lambda: rng.randrange(1, 16)) if tiny else (lambda: rng.choice([rng.randrange(1, r), rng.randrange(1, 1 << 64), rng.randrange(1, 40)]))
+        if r < 100:
+            big = lambda: rng.randrange(0, r + 2)
+        elif tiny:
+            big = lambda: rng.randrange(0, 16)
+        else:
+            big = lambda: rng.choice([rng.randrange(1, r), rng.randrange(1, 1 << 64), rng.randrange(0, 40)])
         s1, s2 = big(), big()
+        if fixed is not None:
+            s1, s2 = fixed[_ % len(fixed)]
         k, l = big(), big()
         w = rng.choice([2, 3, 4, 5])
         t = rng.randrange(12)
@@ -271,8 +278,12 @@ def gen_curve(rng, op, c, r, n, tiny=False):
             e = rng.choice(P_DIFF); cls = 'distinct'
         elif t == 9:
             s2 = s1; e = rng.choice([(0, 1), (2, 11), (2, 12), (4, 11)]); cls = 'A_eq_B'
+            if fixed is not None and fixed[_ % len(fixed)][0] != fixed[_ % len(fixed)][1]:
+                s1, s2 = fixed[_ % len(fixed)]; cls = 'pair'
         elif t == 10 and not tiny:
-            s2 = r - s1 if s1 < r else 1; e = rng.choice([(2, 16), (4, 15), (1, 13), (3, 17)]); cls = 'A_eq_negB'
+            s2 = (r - s1) % r if s1 < r else 1; e = rng.choice([(2, 16), (4, 15), (1, 13), (3, 17)]); cls = 'A_eq_negB'
+            if fixed is not None and (fixed[_ % len(fixed)][0] + fixed[_ % len(fixed)][1]) % r:
+                s1, s2 = fixed[_ % len(fixed)]; cls = 'pair'
         else:
             l = (r - k) % r if not tiny else l; e = (9, 10); cls = 'k_plus_l_eq_r' if not tiny else 'same_point'
             if l == 0:
@@ -344,6 +355,31 @@ def gen_gt(rng, n):
         yield 'gt_rel', H + [x, y, [0] * 12, list(e)], 'gt/%s/%s' % (cls, cx)
 
 
+def gen_gt_pair(rng, n):
+    f = FIELDS['bls12_381_fq12']
+    g = PARAMS['gt']['bls12_381']['g']
+    r = FIELDS['bls12_381_fr']['params'][0]
+    H = [head(f), f['params'], g]
+    sc = lambda: rng.choice([0, 1, 2, r - 1, rng.randrange(r), rng.randrange(1 << 64)])
+    for _ in range(n):
+        s1, s2, t1, t2 = sc(), sc(), sc(), sc()
+        mode = rng.randrange(5)
+        same = rng.randrange(3) > 0
+        cls = 'distinct'
+        if same:
+            cls = 'same_value'
+            e = s1 * s2 % r
+            if mode in (0, 1):
+                t1, t2 = rng.choice([(s2, s1), (e, 1), (1, e), (s1, s2)])
+            elif mode in (2, 3):
+                t2 = (e - t1) % r
+            else:
+                t1, t2 = (r - s1) % r, s2
+        if s1 * s2 % r == 0:
+            cls += '/identity'
+        yield 'gt_pair', H + [[s1, s2, t1, t2, mode, r]], 'gt_pair/mode%d/%s' % (mode, cls)
+
+
 def gen(rng, tier):
     scale = 1 if tier == 'quick' else 25
     # configuration constants
@@ -366,27 +402,41 @@ def gen(rng, tier):
     yield from gen_big(rng, 1500 * scale)
     for name, c in sorted(SW.items()):
         c = dict(c, name=name)
+        if name == 'toy_sw13':
+            # every ordered pair (A, B) of the 19 points (s = 0 is the identity), several expression pairs each
+            pairs = [(i, j) for i in range(19) for j in range(19)]
+            yield from gen_curve(rng, 'sw_rel', c, 19, len(pairs) * (2 if tier == 'quick' else 12), fixed=pairs)
+            continue
         r = FIELDS[c['fr']]['params'][0]
         yield from gen_curve(rng, 'sw_rel', c, r, {'bls12_381_g1': 160, 'bls12_381_g2': 100, 'secp256k1': 160}[name] * scale)
         yield from gen_curve(rng, 'sw_rel', c, r, 12 * scale, tiny=True)
     for name, c in sorted(TE.items()):
         c = dict(c, name=name)
+        if name == 'toy_te13':
+            pairs = [(i, j) for i in range(5) for j in range(5)]
+            yield from gen_curve(rng, 'te_rel', c, 5, len(pairs) * (12 if tier == 'quick' else 100), fixed=pairs)
+            continue
         yield from gen_curve(rng, 'te_rel', c, JUBJUB_R, 200 * scale)
         yield from gen_curve(rng, 'te_rel', c, JUBJUB_R, 12 * scale, tiny=True)
+    yield 'gt_params', [head(FIELDS['bls12_381_fq12']), FIELDS['bls12_381_fq12']['params'], PARAMS['gt']['bls12_381']['g']], 'params'
     yield from gen_gt(rng, 150 * scale)
+    yield from gen_gt_pair(rng, 48 * (1 if tier == 'quick' else 8))
     yield from gen_poly(rng, 500 * scale)
 
 
 def nontrivial(case, out):
-    return case['op'] not in ('fld_params', 'sw_params', 'te_params') and any(any(x != 0 for x in a) for a in case['args'][2:])
+    return case['op'] not in ('fld_params', 'sw_params', 'te_params', 'gt_params') and any(any(x != 0 for x in a) for a in case['args'][2:])
 
 
 def xcheck_ok(case):
     """cases cheap enough for in-kernel vm_compute on stdlib Z"""
     op = case['op']
     if op in ('sw_rel', 'te_rel'):
-        return False            # scalar multiplications + inversions on 255..381-bit Z: minutes in the kernel
-    if op in ('fld_rel', 'fld_sort', 'gt_rel', 'fld_params'):
+        # scalar multiplications + inversions on 255..381-bit Z take minutes in the kernel: toy curves only
+        return case['args'][1][0] < 1000
+    if op == 'gt_pair':
+        return False            # 255-bit exponentiation in Fq12
+    if op in ('fld_rel', 'fld_sort', 'gt_rel', 'fld_params', 'gt_params'):
         kind, N = case['args'][0][1], case['args'][0][2]
         if kind >= 6:
             return False        # Fq6/Fq12 products on 381-bit Z
